@@ -4194,6 +4194,11 @@ class TLSConnection(TLSRecordLayer):
                     # groups that we support
                     supported = clientHello.getExtension(ExtensionType
                                                          .supported_groups)
+                    if not supported:
+                        for result in self._sendError(
+                                AlertDescription.missing_extension,
+                                "Missing supported_groups extension"):
+                            yield result
                     supported_ids = supported.groups
                     selected_group = next((i for i in acceptable_ids
                                            if i in supported_ids), None)
